@@ -420,12 +420,32 @@ func c17(c *Ctx) {
 			okSum := b != nil && asBinOp(b.X, token.ADD) != nil && strings.HasSuffix(pathOf(b.Y), ".packetSize")
 			r.Check("statsdaemon:size-test-shape", okSum, test.Pos(), "buf.Len()+line.Len() > client.packetSize")
 			// the write to buf: fmt.Fprint(buf, line) dominated by the test block
-			okW := false
-			for _, cl := range callsTo(g, "fmt.Fprint") {
-				if instrDominates(test, cl) && strings.Contains(pathOf(cl.Common().Args[0]), "buf") {
-					okW = true
+			// every write into the packet buffer (fmt.Fprint(buf, ..), buf.Write*, line.WriteTo(buf)) comes after the test
+			okW, nW := true, 0
+			for _, cl := range callsIn(g) {
+				name := calleeName(cl)
+				var dst ssa.Value
+				switch {
+				case strings.HasPrefix(name, "fmt.Fprint"):
+					dst = cl.Common().Args[0]
+				case strings.HasPrefix(name, "(*bytes.Buffer).Write"):
+					if strings.HasSuffix(name, ".WriteTo") {
+						dst = cl.Common().Args[1]
+					} else {
+						dst = cl.Common().Args[0]
+					}
+				default:
+					continue
+				}
+				if !strings.Contains(pathOf(dst), "buf") {
+					continue
+				}
+				nW++
+				if !instrDominates(test, cl) {
+					okW = false
 				}
 			}
+			okW = okW && nW >= 1
 			r.Check("statsdaemon:write-after-size-test", okW, test.Pos(), "the line is written into the packet buffer only after the size test")
 			// true edge: handler(buf) and buf replaced
 			okSwap := false
